@@ -14,6 +14,12 @@
    Records of the mechanism before the repairs: `_before_D57`, `_before_D59` notes, C04_err_constant_rhs and
    C04_err_scalar_fanout (impl_loud = the model with the switches off raises where the old code raised; the repaired
    model agrees with the edge list on the same inputs), C04_full_refuted_before_D86.
+   MULTI-OPERATOR NODE TYPES (a class = a list of operators with their own state, parameter, input, optional algebraic
+   output, intra-node feeders; structural key = the list of operator structures, names and values not in it, multiplicity
+   in it; cache_func's matching + rename-once step of D58): C04_multiop_full — mimpl vec c st = mspec c st for every
+   well-formed multi-operator circuit, both modes; ingredients C04_rename_once_positional (the matching of operators of a
+   merged node is the identity on positions when the structure lists are equal), C04_member_has_index (converse of the
+   index map), and the SAME edge pipeline theorem (core_input) over flattened variables.
    Outside the model's type (still a finding, raw witness): D23, an algebraic source variable that depends on its own
    input. *)
 From Coq Require Import List ZArith QArith Qcanon Bool Arith.
@@ -215,3 +221,29 @@ Example C04_nonvacuous :
   spec w_ok st_ok = [mkq (-1) 4; q (-2); q 3; mkq 49 4; q 1].
 Proof. exact nonvacuous. Qed.
 Print Assumptions C04_nonvacuous.
+
+(* ---- multi-operator node types ---- *)
+Theorem C04_rename_once_positional : forall l, match_ops l l [] = map Some (seq 0 (length l)).
+Proof. exact match_ops_identity. Qed.
+Print Assumptions C04_rename_once_positional.
+
+Theorem C04_member_has_index : forall ks vn rs j i', cache_all [] ks 0 = (vn, rs) -> (i' < length (members vn j))%nat ->
+  (nth i' (members vn j) 0 < length ks)%nat /\ idx_of rs (nth i' (members vn j) 0%nat) = (j, i').
+Proof. exact member_has_index. Qed.
+Print Assumptions C04_member_has_index.
+
+Theorem C04_multiop_full : forall vec c st, mwf c = true -> mimpl vec c st = mspec c st.
+Proof. exact mimpl_is_mspec. Qed.
+Print Assumptions C04_multiop_full.
+
+Theorem C04_multiop_vec_equals_nonvec : forall c st, mwf c = true -> mimpl true c st = mimpl false c st.
+Proof. exact mimpl_vec_equals_nonvec. Qed.
+Print Assumptions C04_multiop_vec_equals_nonvec.
+
+Example C04_multiop_nonvacuous :
+  mwf mw_ok = true /\ mkeys true mw_ok = [0; 0; 2; 0]%nat /\
+  qlist_eqb (mimpl true mw_ok mst_ok) (mspec mw_ok mst_ok) = true /\
+  qlist_eqb (mimpl false mw_ok mst_ok) (mspec mw_ok mst_ok) = true /\
+  qlist_eqb (mspec mw_ok mst_ok) [q (-1); q 10; q 6; q 20; q (-5); q 48; mkq 63 2; q 48; q (-9); q 260; q 198] = true.
+Proof. exact multiop_nonvacuous. Qed.
+Print Assumptions C04_multiop_nonvacuous.
